@@ -56,12 +56,21 @@ Theorem C17_link_to_secret_omitted : forall cf b d st dest src below rm,
 Proof. exact secret_target_omitted. Qed.
 Print Assumptions C17_link_to_secret_omitted.
 
-(* secrets_absent for all trees is REFUTED (finding F19): the secret file below the output directory is saved under
-   the name of a link whose absolute target is not clean *)
+(* secrets_absent for all trees is REFUTED (finding F16, secret form): the secret below the output directory is reached
+   through a symlinked directory; the copier tests the string it computed, not the path the kernel reaches, and saves
+   the secret's bytes under the link's name.  (The variant through an unclean absolute target, finding F19, is
+   repaired by commit 05c563f — second statement.) *)
 Theorem C17_secrets_absent_refuted :
-  resolve f19_cfg nostore = SpecOk [] /\ fst (copy_model f19_cfg nostore) = ROk [("./l", false, "TOP-SECRET")].
-Proof. exact f19_witness. Qed.
+  (exists l, resolve f16s_cfg nostore = SpecOk l /\ forall e, In e l -> snd e <> "TOP-SECRET") /\
+  (exists l, fst (copy_model f16s_cfg nostore) = ROk l /\ In ("./l", false, "TOP-SECRET") l) /\
+  w_f16 (snd (copy_model f16s_cfg nostore)) = true.
+Proof. exact f16_secret_witness. Qed.
 Print Assumptions C17_secrets_absent_refuted.
+
+Theorem C17_former_finding_F19_repaired :
+  resolve f19_cfg nostore = SpecOk [] /\ fst (copy_model f19_cfg nostore) = ROk [].
+Proof. exact f19_repaired. Qed.
+Print Assumptions C17_former_finding_F19_repaired.
 
 (* copy_succeeds_on_wellformed is REFUTED (finding F11): the tree is well-formed (the specification resolves it) but
    the copy fails *)
@@ -87,8 +96,13 @@ Theorem C17_copy_ok_equals_resolve_refuted :
 Proof. exact f16_witness. Qed.
 Print Assumptions C17_copy_ok_equals_resolve_refuted.
 
-(* the copy can crash instead of failing (finding F17): a link into a second "tmp" mount *)
-Theorem C17_copy_fails_cleanly_refuted :
-  fst (copy_model f17_cfg nostore) = RPanic /\ resolve f17_cfg nostore = SpecFail.
-Proof. exact f17_witness. Qed.
-Print Assumptions C17_copy_fails_cleanly_refuted.
+(* the input of the former finding F17 (link into a second "tmp" mount) now fails cleanly, as the specification wants
+   (commit d81649d); and the Extract calls inside the copier cannot panic (C10 no_panic_gomanifest) *)
+Theorem C17_former_finding_F17_repaired :
+  fst (copy_model f17_cfg nostore) = RErr /\ resolve f17_cfg nostore = SpecFail.
+Proof. exact f17_repaired. Qed.
+Print Assumptions C17_former_finding_F17_repaired.
+
+Theorem C17_mount_extraction_never_panics : forall cf st dest src rm, snd (walk_mount_static cf st dest src rm) <> SPanic.
+Proof. exact walk_mount_static_np. Qed.
+Print Assumptions C17_mount_extraction_never_panics.
